@@ -70,11 +70,11 @@ def run_api(ck, programs, tag, in_scope, per_program_timeout=60, extra_classify=
     trace, abnormal = runner.run_programs(programs, seed=C.seed(), tag=tag, per_program_timeout=per_program_timeout)
     nev = sum(1 for _ in open(trace))
     ck.log("executed %d programs on the real library: %d events, %d abnormal termination(s)" % (len(programs), nev, len(abnormal)))
-    v = C.validate_trace(trace_module, trace_module + ".cfg", trace, timeout=2400, heap="8g")
+    v = C.validate_trace_parallel(trace_module, trace_module + ".cfg", trace, parts=8, timeout=2400, heap="4g")
     njudged = 0
     for p in v.tlc.prints:
         if "TRACE_INFO" in p:
-            njudged = C.parse_tla_value(p)[1]
+            njudged += C.parse_tla_value(p)[1]
     ck.log("trace validation: %d/%d events consumed, %d events judged by the contract, %d rejection(s)" % (v.consumed, v.total, njudged, len(v.rejections)))
     byx = {p["x"]: p for p in programs}
     lines = open(trace).read().split("\n") if v.rejections else []
